@@ -71,7 +71,7 @@ package types
 //@@ the constructors with): assumed total, never nil, and as wide as the base type (the table entries' types are
 //@@ compared with the size table by the closed obligations invalid-table.size.<i>)
 //@ func (t Base) Invalid() (r interface{})
-//@   props C05 C06
+//@   props C05 C06 C07
 //@   trusted
 //@   ensures r != nil
 //@   ensures [size] KnownIdx(t) && t != BaseString ==> binsize(r) == SizeSpec(byte(t)&0x1F)
